@@ -387,6 +387,13 @@ class _ControlLoopRunner:
                 # Get current time
                 now = await self.adapter.get_now()
 
+                # Service scheduled wakeups on every iteration. A run whose worker
+                # or pull tasks keep completing never waits out the timeout below,
+                # so doing this only on the timeout branch would starve the workflow
+                # timeout, delayed retries and waiter timeouts.
+                for due_tick in self.pop_due_ticks(now):
+                    self.tick_buffer.append(due_tick)
+
                 # optimization, only reload "now" if any work was done
                 was_buffered = bool(self.tick_buffer)
                 # Drain and process buffered ticks first (from rehydration, queue_tick, etc.)
@@ -450,10 +457,7 @@ class _ControlLoopRunner:
                 completed_task = result.completed
 
                 if completed_task is None:
-                    # Timeout - process scheduled ticks
-                    now = await self.adapter.get_now()
-                    for due_tick in self.pop_due_ticks(now):
-                        self.tick_buffer.append(due_tick)
+                    # Timeout - due ticks are collected at the top of the loop
                     continue
 
                 # Process the single completed task
